@@ -1,4 +1,4 @@
-import QP.Proofs.C10Share
+import QP.Proofs.C10Multi
 /-!
 # Property theorems for C10 — stored pulse templates load back as the same pulse
 
@@ -203,6 +203,14 @@ nothing is `put` before the whole transaction is encoded): later stores behave a
 theorem rejected_store_unchanged (st : St) (i : Id) (t : T) (e : Err) (h : setitem st i t = .error e) :
     setitemTry st i t = (st, [], false) := by
   simp [setitemTry, h]
+
+/-- **a store always writes**: when `overwrite` returns, every document of its transaction — the root's among them — is
+what the backend holds under that identifier, whatever the storage's own temporary storage (possibly stale: other
+storages may work on the same backend) or the backend contained before. The backend is the single source of truth. -/
+theorem store_always_writes (st st' : St) (i : Id) (t : T) (log : List (Id × J))
+    (h : overwrite st i t = .ok (st', log)) :
+    (∀ e ∈ log, lookup e.1 st'.backend = some e.2) ∧ i ∈ log.map Prod.fst :=
+  overwrite_writes st st' i t log h
 
 /-- a reference to an identifier that is not in the backend cannot be loaded (`KeyError`) -/
 theorem load_missing (f : Nat) (s : Store) (i : Id) (h : lookup i s = none) : load f s i = .error .keyError := by
